@@ -32,6 +32,10 @@ def t_idem(t, cfg):
         e = C01.build(ctx, t, ints)
         r1 = ctx.call(ExpressionSimplifier.__call__, s, e)
         if r1.raised:
+            if isinstance(r1.exc, RecursionError):
+                ctx.cover("ret")
+                ctx.check("terminates (no unbounded recursion)", False, kind="termination")
+                return
             raise Infeasible("raises: C01's obligation, not C02's")
         ctx.cover("ret")
         r2 = ctx.call(ExpressionSimplifier.__call__, s, r1.value)
